@@ -256,7 +256,8 @@ def decide(text, case, key, user_named):
     for g, h, method, nm in it.pevents:
         if method == "prestart":
             names.setdefault(nm, set()).add(h)
-    dup = {nm: hs for nm, hs in names.items() if len(hs) > 1 and nm not in user_named}
+    # a name the user asked for may be shared by as many regions as the user gave it to
+    dup = {nm: hs for nm, hs in names.items() if len(hs) > max(1, user_named.get(nm, 0))}
     if dup:
         nm = sorted(dup)[0]
         out.update(status="sat_replayed", diff=f"region name {nm} used by handles {sorted(dup[nm])}",
@@ -352,7 +353,7 @@ def work(case):
             except Exception as e:  # pylint: disable=broad-except
                 outs.append({"key": key, "status": "psyclone_error", "why": f"writer: {type(e).__name__}: {e}"[:300]})
                 continue
-            outs.append(decide(txt, case, key, set()))
+            outs.append(decide(txt, case, key, {}))
         # pairs with ONE transformation object: first region user-named, second default-named;
         # then an enclosing region around everything (nesting)
         top = [pl for pl in pls if pl[0] == 0 and pl[2] - pl[1] == 1]
@@ -369,7 +370,7 @@ def work(case):
                 try:
                     txt = tv.write_psyir(p)
                     outs.append(decide(txt, case, dict(key, params=dict(key["params"], nested=(st3 == "ok"))),
-                                       {("mymod", "myregion")}))
+                                       {("mymod", "myregion"): 1}))
                 except Exception as e:  # pylint: disable=broad-except
                     outs.append({"key": key, "status": "psyclone_error", "why": f"writer: {type(e).__name__}: {e}"[:300]})
             else:
